@@ -540,5 +540,8 @@ func genQueue(repo string) (string, error) {
 	if err := genLockTable(repo, &out); err != nil {
 		return "", err
 	}
+	if err := genConnPool(repo, &out); err != nil {
+		return "", err
+	}
 	return out.String(), nil
 }
